@@ -194,6 +194,13 @@ Print Assumptions C14_exit_zero_iff_no_error.
 Example syntax_flag : syntax_emits_only_errors = true.
 Proof. reflexivity. Qed.
 
+(* The discipline hypothesis `disc` against the source: the only arena resets outside
+   src/arena are in src/runtime.rs, and each targets an offset that the same function (or each
+   of its callers) read from `.offset()` of that same arena after it was handed the arena —
+   re-read from the source on every check (GenWiring.runtime_reset_sites). *)
+Example runtime_resets_target_own_marks : forallb snd runtime_reset_sites = true.
+Proof. reflexivity. Qed.
+
 Example exit_codes :
   exit_code [] [false; false] [] = 0 /\ exit_code [true] [] [] = 1 /\
   exit_code [] [false; true] [] = 1 /\ exit_code [] [false] [true] = 1.
